@@ -1,6 +1,6 @@
 (* Props/C15.v — C15: every metadata codec is an exact inverse pair over its whole domain.
    Only statements, closed by `exact`, pinned by `Check`, audited by `Print Assumptions`. *)
-From PNA Require Import Base Name Codec BaseFacts CodecFacts.
+From PNA Require Import Base Name Codec BaseFacts NameFacts CodecFacts.
 Open Scope N_scope.
 
 Theorem C15_be_inverse : forall w n, n < 256 ^ N.of_nat w -> of_be (be w n) = n.
@@ -54,3 +54,186 @@ Theorem C15_enum_stable :
   (forall n k, enc_of_n n = Some k -> enc_to_n k = n) /\ (forall n k, mode_of_n n = Some k -> mode_to_n k = n).
 Proof. exact (conj kind_stable (conj comp_stable (conj enc_stable mode_stable))). Qed.
 Print Assumptions C15_enum_stable.
+
+(* ---- FHED: the encoder writes `minor` twice, so the law holds for headers with major = minor --- *)
+Theorem C15_fhed_inverse :
+  forall h, f_major h = f_minor h /\ f_minor h < 256 /\ utf8_valid (f_name h) = true /\ sanitize_name (f_name h) = f_name h ->
+    fhed_of_bytes (fhed_to_bytes h) = Ok h.
+Proof. exact fhed_inv. Qed.
+Check C15_fhed_inverse :
+  forall h, f_major h = f_minor h /\ f_minor h < 256 /\ utf8_valid (f_name h) = true /\ sanitize_name (f_name h) = f_name h ->
+    fhed_of_bytes (fhed_to_bytes h) = Ok h.
+Print Assumptions C15_fhed_inverse.
+
+Theorem C15_fhed_stable :
+  forall bs h, fhed_of_bytes bs = Ok h -> f_major h = f_minor h -> fhed_of_bytes (fhed_to_bytes h) = Ok h.
+Proof. exact fhed_stable. Qed.
+Check C15_fhed_stable :
+  forall bs h, fhed_of_bytes bs = Ok h -> f_major h = f_minor h -> fhed_of_bytes (fhed_to_bytes h) = Ok h.
+Print Assumptions C15_fhed_stable.
+
+Theorem C15_fhed_stable_bytes :
+  forall b0 b1 b2 b3 b4 b5 name h,
+    fhed_of_bytes (b0 :: b1 :: b2 :: b3 :: b4 :: b5 :: name) = Ok h -> b0 = b1 -> sanitize_name name = name ->
+    fhed_to_bytes h = b0 :: b1 :: b2 :: b3 :: b4 :: b5 :: name.
+Proof. exact fhed_stable_bytes. Qed.
+Check C15_fhed_stable_bytes :
+  forall b0 b1 b2 b3 b4 b5 name h,
+    fhed_of_bytes (b0 :: b1 :: b2 :: b3 :: b4 :: b5 :: name) = Ok h -> b0 = b1 -> sanitize_name name = name ->
+    fhed_to_bytes h = b0 :: b1 :: b2 :: b3 :: b4 :: b5 :: name.
+Print Assumptions C15_fhed_stable_bytes.
+
+(* without major = minor the stability law is false in the model of the code as written *)
+Theorem C15_fhed_stable_major_refuted :
+  exists bs h, fhed_of_bytes bs = Ok h /\ fhed_of_bytes (fhed_to_bytes h) <> Ok h.
+Proof. exact fhed_major_refuted. Qed.
+Check C15_fhed_stable_major_refuted :
+  exists bs h, fhed_of_bytes bs = Ok h /\ fhed_of_bytes (fhed_to_bytes h) <> Ok h.
+Print Assumptions C15_fhed_stable_major_refuted.
+
+(* ---- SHED: exact bytes ------------------------------------------------------------------------- *)
+Theorem C15_shed_stable :
+  forall bs h, shed_of_bytes bs = Ok h -> shed_to_bytes h = bs.
+Proof. exact shed_stable. Qed.
+Check C15_shed_stable :
+  forall bs h, shed_of_bytes bs = Ok h -> shed_to_bytes h = bs.
+Print Assumptions C15_shed_stable.
+
+(* ---- fPRM --------------------------------------------------------------------------------------- *)
+Theorem C15_perm_inverse :
+  forall p, p_uid p < 2 ^ 64 /\ p_gid p < 2 ^ 64 /\ p_mode p < 2 ^ 16 /\
+    len (p_uname p) <= 255 /\ len (p_gname p) <= 255 /\
+    utf8_valid (p_uname p) = true /\ utf8_valid (p_gname p) = true ->
+    perm_of_bytes (perm_to_bytes p) = Ok p.
+Proof. exact perm_inv. Qed.
+Check C15_perm_inverse :
+  forall p, p_uid p < 2 ^ 64 /\ p_gid p < 2 ^ 64 /\ p_mode p < 2 ^ 16 /\
+    len (p_uname p) <= 255 /\ len (p_gname p) <= 255 /\
+    utf8_valid (p_uname p) = true /\ utf8_valid (p_gname p) = true ->
+    perm_of_bytes (perm_to_bytes p) = Ok p.
+Print Assumptions C15_perm_inverse.
+
+Theorem C15_perm_stable :
+  forall bs p, perm_of_bytes bs = Ok p -> perm_of_bytes (perm_to_bytes p) = Ok p.
+Proof. exact perm_stable. Qed.
+Check C15_perm_stable :
+  forall bs p, perm_of_bytes bs = Ok p -> perm_of_bytes (perm_to_bytes p) = Ok p.
+Print Assumptions C15_perm_stable.
+
+(* the decoder ignores trailing bytes: the input starts with the re-encoding *)
+Theorem C15_perm_stable_prefix :
+  forall bs p, perm_of_bytes bs = Ok p -> exists rest, bs = perm_to_bytes p ++ rest.
+Proof. exact perm_stable_prefix. Qed.
+Check C15_perm_stable_prefix :
+  forall bs p, perm_of_bytes bs = Ok p -> exists rest, bs = perm_to_bytes p ++ rest.
+Print Assumptions C15_perm_stable_prefix.
+
+(* D22: outside the domain (a 256-byte user name) the round trip silently returns another value *)
+Theorem C15_perm_long_name_refuted :
+  len (p_uname long_name_perm) = 256 /\ utf8_valid (p_uname long_name_perm) = true /\
+  perm_of_bytes (perm_to_bytes long_name_perm) =
+    Ok {| p_uid := 1000; p_uname := []; p_gid := 0x7575757575757575; p_gname := repeat x75 117; p_mode := 0x7575 |} /\
+  perm_of_bytes (perm_to_bytes long_name_perm) <> Ok long_name_perm.
+Proof. exact perm_refuted_long_name. Qed.
+Check C15_perm_long_name_refuted :
+  len (p_uname long_name_perm) = 256 /\ utf8_valid (p_uname long_name_perm) = true /\
+  perm_of_bytes (perm_to_bytes long_name_perm) =
+    Ok {| p_uid := 1000; p_uname := []; p_gid := 0x7575757575757575; p_gname := repeat x75 117; p_mode := 0x7575 |} /\
+  perm_of_bytes (perm_to_bytes long_name_perm) <> Ok long_name_perm.
+Print Assumptions C15_perm_long_name_refuted.
+
+(* ---- xATR --------------------------------------------------------------------------------------- *)
+Theorem C15_xattr_stable :
+  forall bs x, xattr_of_bytes bs = Ok x -> xattr_of_bytes (xattr_to_bytes x) = Ok x.
+Proof. exact xattr_stable. Qed.
+Check C15_xattr_stable :
+  forall bs x, xattr_of_bytes bs = Ok x -> xattr_of_bytes (xattr_to_bytes x) = Ok x.
+Print Assumptions C15_xattr_stable.
+
+Theorem C15_xattr_stable_prefix :
+  forall bs x, xattr_of_bytes bs = Ok x -> exists rest, bs = xattr_to_bytes x ++ rest.
+Proof. exact xattr_stable_prefix. Qed.
+Check C15_xattr_stable_prefix :
+  forall bs x, xattr_of_bytes bs = Ok x -> exists rest, bs = xattr_to_bytes x ++ rest.
+Print Assumptions C15_xattr_stable_prefix.
+
+(* ---- fSIZ: the minimal big-endian form of a u128 ------------------------------------------------ *)
+Theorem C15_fsiz_inverse :
+  forall n, n < 2 ^ 128 -> fsiz_of_bytes (fsiz_to_bytes n) = n.
+Proof. exact fsiz_inv. Qed.
+Check C15_fsiz_inverse :
+  forall n, n < 2 ^ 128 -> fsiz_of_bytes (fsiz_to_bytes n) = n.
+Print Assumptions C15_fsiz_inverse.
+
+Theorem C15_fsiz_minimal :
+  (forall n, ((length (fsiz_to_bytes n) <= 16)%nat /\ no_leading_zero (fsiz_to_bytes n)) /\
+             fsiz_of_bytes (fsiz_to_bytes n) = n mod 2 ^ 128) /\
+  (forall bs, (length bs <= 16)%nat /\ no_leading_zero bs -> fsiz_to_bytes (fsiz_of_bytes bs) = bs).
+Proof. exact fsiz_minimal. Qed.
+Check C15_fsiz_minimal :
+  (forall n, ((length (fsiz_to_bytes n) <= 16)%nat /\ no_leading_zero (fsiz_to_bytes n)) /\
+             fsiz_of_bytes (fsiz_to_bytes n) = n mod 2 ^ 128) /\
+  (forall bs, (length bs <= 16)%nat /\ no_leading_zero bs -> fsiz_to_bytes (fsiz_of_bytes bs) = bs).
+Print Assumptions C15_fsiz_minimal.
+
+Theorem C15_fsiz_stable :
+  forall bs, fsiz_to_bytes (fsiz_of_bytes (fsiz_to_bytes (fsiz_of_bytes bs))) = fsiz_to_bytes (fsiz_of_bytes bs).
+Proof. exact fsiz_stable. Qed.
+Check C15_fsiz_stable :
+  forall bs, fsiz_to_bytes (fsiz_of_bytes (fsiz_to_bytes (fsiz_of_bytes bs))) = fsiz_to_bytes (fsiz_of_bytes bs).
+Print Assumptions C15_fsiz_stable.
+
+(* ---- chunk-type property bits, for all byte values ---------------------------------------------- *)
+Theorem C15_chunk_type_bits :
+  forall a b c d, let ty := [a; b; c; d] in
+    (ty_is_critical ty = negb (bit5 a) /\ ty_is_private ty = bit5 b /\
+     ty_is_reserved ty = bit5 c /\ ty_is_safe_to_copy ty = bit5 d) /\
+    (forallb is_alpha ty = true ->
+     ty_is_critical ty = is_upper a /\ ty_is_private ty = is_lower b /\
+     ty_is_reserved ty = is_lower c /\ ty_is_safe_to_copy ty = is_lower d).
+Proof. exact chunk_type_bits. Qed.
+Check C15_chunk_type_bits :
+  forall a b c d, let ty := [a; b; c; d] in
+    (ty_is_critical ty = negb (bit5 a) /\ ty_is_private ty = bit5 b /\
+     ty_is_reserved ty = bit5 c /\ ty_is_safe_to_copy ty = bit5 d) /\
+    (forallb is_alpha ty = true ->
+     ty_is_critical ty = is_upper a /\ ty_is_private ty = is_lower b /\
+     ty_is_reserved ty = is_lower c /\ ty_is_safe_to_copy ty = is_lower d).
+Print Assumptions C15_chunk_type_bits.
+
+Theorem C15_chunk_type_letter_case :
+  (forall b, bit5 b = negb (N.eqb (N.land (b2n b) 32) 0)) /\
+  (forall b, is_alpha b = true -> bit5 b = is_lower b) /\
+  (forall b, is_alpha b = true -> negb (bit5 b) = is_upper b).
+Proof. exact (conj bit5_land (conj alpha_bit5_lower alpha_bit5_upper)). Qed.
+Check C15_chunk_type_letter_case :
+  (forall b, bit5 b = negb (N.eqb (N.land (b2n b) 32) 0)) /\
+  (forall b, is_alpha b = true -> bit5 b = is_lower b) /\
+  (forall b, is_alpha b = true -> negb (bit5 b) = is_upper b).
+Print Assumptions C15_chunk_type_letter_case.
+
+Theorem C15_chunk_type_private :
+  forall ty, length ty = 4%nat ->
+    (ty_private_check ty = 0 <->
+     forallb is_alpha ty = true /\ ty_is_private ty = true /\ ty_is_reserved ty = false).
+Proof. exact private_check_codes. Qed.
+Check C15_chunk_type_private :
+  forall ty, length ty = 4%nat ->
+    (ty_private_check ty = 0 <->
+     forallb is_alpha ty = true /\ ty_is_private ty = true /\ ty_is_reserved ty = false).
+Print Assumptions C15_chunk_type_private.
+
+(* ---- entry names (the FHED name field) ---------------------------------------------------------- *)
+Theorem C15_name_idempotent :
+  forall s, sanitize_name (sanitize_name s) = sanitize_name s.
+Proof. exact sanitize_idem. Qed.
+Check C15_name_idempotent :
+  forall s, sanitize_name (sanitize_name s) = sanitize_name s.
+Print Assumptions C15_name_idempotent.
+
+Theorem C15_name_utf8_preserved :
+  forall s, utf8_valid s = true -> utf8_valid (sanitize_name s) = true.
+Proof. exact utf8_valid_sanitize. Qed.
+Check C15_name_utf8_preserved :
+  forall s, utf8_valid s = true -> utf8_valid (sanitize_name s) = true.
+Print Assumptions C15_name_utf8_preserved.
